@@ -103,7 +103,7 @@ class Monitor:
                         eng.check(time <= tb, 'C16.order', lambda: f'A begins step {time} while the step of {b} at {tb} is unfinished')
                 # (1) exactly the values set since A's previous step, under the right source, once
                 exp = {k[1]: v for k, v in self.pending.items() if k[0] == 'A'}
-                got = dict(inputs.get('e', {}).get('im', {}))
+                got = {k: v for k, v in inputs.get('e', {}).get('im', {}).items() if k.split('.')[0] in self.allowed}
                 if exp != got:
                     eng.alarm('C16.data', f'A@{time}: set_data values expected {exp}, inputs carry {got}', {'fp': ['data']})
                 for k in [k for k in self.pending if k[0] == 'A']:
@@ -119,7 +119,7 @@ class Monitor:
             self.inflight.pop(sid, None)
 
 
-def async_run(n_agents, unconnected, cfg, data_edge=False, triggered=False):
+def async_run(n_agents, unconnected, cfg, data_edge=False, triggered=False, feeder=False):
     """n_agents agents connected with async_requests; if `unconnected`, one more agent without such a connection
     (variant 'plain': connected by a normal data connection only; 'none': no connection at all)."""
     def h(eng):
@@ -140,6 +140,10 @@ def async_run(n_agents, unconnected, cfg, data_edge=False, triggered=False):
             try:
                 a = w.start('S', sim_id='A', typ='time-based').M()
                 ents = {}
+                if feeder:
+                    # an ordinary persistent connection into the very attribute the agents write with set_data
+                    fe = w.start('S', sim_id='F', typ='time-based').M()
+                    w.connect(fe, a, ('op', 'im'))
                 if triggered:
                     # the agents are event-based and triggered by a separate clock simulator T
                     clock = w.start('S', sim_id='T', typ='time-based').M()
@@ -191,13 +195,13 @@ def jobs(tier):
     out = []
 
     def add(n_agents, unconnected, K, until, syncs, caches=(True, False), data_edge=False, rps=1, D=0, split=None, no_get=False, lazy=True,
-            triggered=False):
+            triggered=False, feeder=False):
         for sync in syncs:
             for cache in caches:
                 cfg = {'until': until, 'K': K, 'cache': cache, 'lazy': lazy, 'D': D, 'sync': sync, 'requests_per_step': rps, 'no_get': no_get}
-                j = {'id': f"async|n={n_agents}|x={unconnected}|K={K}|until={until}|sync={''.join(sync) or '-'}|cache={int(cache)}|de={int(data_edge)}|rps={rps}|D={D}|ng={int(no_get)}|lazy={int(lazy)}|trig={int(triggered)}",
+                j = {'id': f"async|n={n_agents}|x={unconnected}|K={K}|until={until}|sync={''.join(sync) or '-'}|cache={int(cache)}|de={int(data_edge)}|rps={rps}|D={D}|ng={int(no_get)}|lazy={int(lazy)}|trig={int(triggered)}|feed={int(feeder)}",
                      'harness': 'vk.kernels.c16:async_run',
-                     'params': {'n_agents': n_agents, 'unconnected': unconnected, 'cfg': cfg, 'data_edge': data_edge, 'triggered': triggered},
+                     'params': {'n_agents': n_agents, 'unconnected': unconnected, 'cfg': cfg, 'data_edge': data_edge, 'triggered': triggered, 'feeder': feeder},
                      'budget_s': 300}
                 if split:
                     j['split_depth'] = split
@@ -214,6 +218,8 @@ def jobs(tier):
     # event-based agent without own steps, triggered by a clock simulator that may lag behind A
     add(1, None, 2, 3, [[], ['A'], ['A', 'B']], caches=(True,), lazy=False, triggered=True, no_get=True, split=16)
     add(1, None, 2, 3, [[], ['A', 'B', 'T']], caches=(True,), lazy=True, triggered=True, no_get=True, split=16)
+    # a persistent source feeds the attribute the agent writes (sparse set_data calls must not be remembered)
+    add(1, None, 3, 3, [['A', 'B', 'F'], ['F']], caches=(False, True), feeder=True, no_get=True)
     add(1, 'none', 2, 2, [[], ['A', 'B', 'X']], caches=(True,))
     add(1, 'plain', 2, 2, [[], ['A', 'B', 'X']], caches=(True,))
     if not q:
